@@ -10,6 +10,8 @@ import (
 	"fmt"
 	"os"
 	"path/filepath"
+	"runtime/debug"
+	"runtime/pprof"
 	"sort"
 	"strings"
 	"time"
@@ -37,6 +39,7 @@ type replayFile struct {
 }
 
 func main() {
+	debug.SetGCPercent(800) // allocation-heavy (every store iterator allocates); plenty of RAM
 	if len(os.Args) < 3 {
 		fmt.Fprintln(os.Stderr, "usage: hubmc run <Cxx> [flags] | hubmc replay <file>")
 		os.Exit(2)
@@ -87,6 +90,11 @@ func run(id string, args []string) int {
 	if r == nil {
 		fmt.Fprintln(os.Stderr, "unknown scenario", id)
 		return 2
+	}
+	if pf := os.Getenv("HUBMC_CPUPROFILE"); pf != "" {
+		f, _ := os.Create(pf)
+		pprof.StartCPUProfile(f)
+		defer pprof.StopCPUProfile()
 	}
 	known, what := loadKnown(*knownPath, id)
 	start := time.Now()
